@@ -480,8 +480,9 @@ ASMJIT_FAVOR_SIZE Error init_func_detail(FuncDetail& func, const FuncSignature& 
               func.add_used_regs(RegGroup::kGp, Support::bit_mask<RegMask>(reg_id));
             }
             else {
-              arg.assign_stack_offset(int32_t(stack_offset));
-              stack_offset += 8;
+              // Every argument owns the 8-byte stack slot that corresponds to its position.
+              arg.assign_stack_offset(int32_t(arg_index * 8u));
+              stack_offset = Support::max<uint32_t>(stack_offset, arg_index * 8u + 8u);
             }
             continue;
           }
@@ -507,8 +508,8 @@ ASMJIT_FAVOR_SIZE Error init_func_detail(FuncDetail& func, const FuncSignature& 
             // Passed via stack if the argument is float/double or indirectly. The trap is - if the argument is
             // passed indirectly, the address can be passed via register, if the argument's index has GP one.
             if (TypeUtils::is_float(type_id)) {
-              arg.assign_stack_offset(int32_t(stack_offset));
-              stack_offset += 8;
+              arg.assign_stack_offset(int32_t(arg_index * 8u));
+              stack_offset = Support::max<uint32_t>(stack_offset, arg_index * 8u + 8u);
             }
             else {
               uint32_t gp_reg_id = Reg::kIdBad;
@@ -521,8 +522,8 @@ ASMJIT_FAVOR_SIZE Error init_func_detail(FuncDetail& func, const FuncSignature& 
                 arg.assign_reg_data(RegType::kGp64, gp_reg_id);
               }
               else {
-                arg.assign_stack_offset(int32_t(stack_offset));
-                stack_offset += 8;
+                arg.assign_stack_offset(int32_t(arg_index * 8u));
+                stack_offset = Support::max<uint32_t>(stack_offset, arg_index * 8u + 8u);
               }
               arg.add_flags(FuncValue::kFlagIsIndirect);
             }
